@@ -415,7 +415,10 @@ def check_x3(ctx, templates: List[Template]) -> None:
             if 'CCUS' in sec:
                 ctx.info(f'X3 header list {hname}: no writer prints `{sec}` any more (legacy reader)')
                 continue
-            ctx.bad('X3', f'{sec}/writer-row-template', 'src/geophires_x_client/geophires_x_result.py', f'no writer row template found for table `{sec}`')
+            # "I cannot read the row" is not "the row is wrong": a writer that builds its row some other way (format(*cells)) is undecided here;
+            # a table no writer prints at all is reported by X6
+            raise AnalysisError(f'X3: no writer row template could be read for table `{sec}` (row built in a form the template engine does not '
+                                f'flatten): cannot decide')
             continue
         for t in rts:
             nh = len(t.values())
